@@ -359,11 +359,59 @@ def check_linearity(case, ctx):
     ctx.nt(len(e) >= 4)
 
 
+# ---------------------------------------------------------------- large queries: the whole equals its pieces
+@st.composite
+def large_cases(draw):
+    case = draw(base())
+    case["large"] = dict(n=draw(st.sampled_from([1500, 4096, 10001, 30000])), seed=draw(st.integers(0, 10**6)), pieces=draw(st.integers(2, 9)),
+                         shape2d=draw(st.booleans()))
+    return case
+
+
+def check_large(case, ctx):
+    """A query of tens of thousands of points predicts exactly what its pieces predict (each point's prediction depends on that point only)."""
+    e, n, _, _ = coords_of(case)
+    if case["gridder"] in ("linear", "cubic"):
+        from checks.c01 import scipy_accepts
+
+        if not scipy_accepts(e, n, case["rescale"]):
+            ctx.skip("scipy_cannot_triangulate")
+    big = case["large"]
+    rng = np.random.RandomState(big["seed"])  # a pure function of the generated case
+    lo_e, hi_e, lo_n, hi_n = min(e), max(e), min(n), max(n)
+    qe = lo_e + (hi_e - lo_e) * (rng.uniform(-0.1, 1.1, big["n"]) if hi_e > lo_e else np.zeros(big["n"]))
+    qn = lo_n + (hi_n - lo_n) * (rng.uniform(-0.1, 1.1, big["n"]) if hi_n > lo_n else np.zeros(big["n"]))
+    est = build.make_estimator(spec_for(case["gridder"], case))
+    data = [np.array(d, dtype="float64") for d in case["data"]]
+    quiet(est.fit, (np.array(e), np.array(n)), tuple(data[:2]) if ncomp(case) == 2 else data[0])
+    shape = (big["n"],)
+    if big["shape2d"]:
+        rows = [k for k in (2, 3, 4, 5, 7) if big["n"] % k == 0]
+        shape = (rows[-1], big["n"] // rows[-1]) if rows else shape
+    whole = est.predict((qe.reshape(shape), qn.reshape(shape)))
+    whole = whole if isinstance(whole, tuple) else (whole,)
+    cuts = sorted(set(int(c) for c in rng.randint(1, big["n"], size=big["pieces"] - 1)))
+    parts = [est.predict((a, b)) for a, b in zip(np.split(qe, cuts), np.split(qn, cuts))]
+    for c in range(len(whole)):
+        w = np.asarray(whole[c])
+        ctx.check(w.shape == shape, "prediction of a %s query has shape %s", shape, w.shape)
+        pieced = np.concatenate([np.ravel(p[c] if isinstance(p, tuple) else p) for p in parts])
+        same = (w.ravel() == pieced) | (np.isnan(w.ravel()) & np.isnan(pieced))
+        if not same.all():
+            k = int(np.argmin(same))
+            raise Violation("%s: point %d of a %d-point query is predicted as %r, the same point inside a piece of the query as %r (component %d)"
+                            % (case["gridder"], k, big["n"], float(w.ravel()[k]), float(pieced[k]), c))
+    ctx.label(case["gridder"], "n%d" % big["n"], "2d" if len(shape) == 2 else "1d")
+    ctx.nt(True)
+
+
 SUBCHECKS = [
     Sub("layout_dtype", check_layout, strategy=layout_cases(), quick=300, thorough=2000, shards_quick=4,
         doc="same element sequence as 2-D/Fortran/strided/Series arrays, integer dtypes, extra coordinates, for fit and query inputs; prediction has the query's shape"),
     Sub("permutation", check_permutation, strategy=permutation_cases(), quick=250, thorough=1500, shards_quick=4,
         doc="reordering the data points leaves predictions unchanged up to solver round-off"),
+    Sub("large_query", check_large, strategy=large_cases(), quick=12, thorough=60, shards_quick=2,
+        doc="a query of 1 500 - 30 000 points predicts bitwise what its pieces predict (chunked or vectorised evaluation must not couple the points)"),
     Sub("linearity", check_linearity, strategy=linearity_cases(), quick=250, thorough=1500, shards_quick=4,
         doc="fit(a*d1 + b*d2) = a*fit(d1) + b*fit(d2) for the gridders that are linear in the data"),
 ]
